@@ -322,6 +322,10 @@ class KindInterp:
             if t3 is None:
                 return AV(UNKNOWN, ast.unparse(node))
             return AV("pybool", t3)
+        if isinstance(node, ast.Call) and dotted(node.func) == "isinstance" and len(node.args) == 2:
+            # a type test kept in a flag variable: decided like the same test written in the condition
+            t3 = self.truth3(node)
+            return AV("pybool", t3) if t3 is not None else AV(UNKNOWN, ast.unparse(node)[:40])
         if isinstance(node, ast.Call):
             f = dotted(node.func) or ast.unparse(node.func)
             args = [self.ev(a) for a in node.args]
